@@ -10,10 +10,16 @@ import core
 ok, facts, out = core.run_xlate()
 print("translator:", "ok" if ok else "FAILED"); 
 if not ok: print(out); sys.exit(1)
-ok, out = core.lake_build(["WtfModel", "Driver", "wtfdriver"])
+import glob
+mods = ["WtfModel." + d + "." + os.path.basename(f)[:-5] for d in ("Props", "Audit") for f in sorted(glob.glob("lean/WtfModel/%s/*.lean" % d))]
+ok, out = core.lake_build(["WtfModel", "Driver", "wtfdriver"] + mods)
 print(out[-3000:])
 if not ok: sys.exit(1)
 ok, out = core.build_harness()
 print("harness:", "ok" if ok else "FAILED\n" + out)
 if not ok: sys.exit(1)
+ok, out = core.build_harness(race=True)
+print("harness(-race):", "ok" if ok else "FAILED\n" + out)
+ok, out, _ = core.build_wtf_binary()
+print("wtf binary:", "ok" if ok else "FAILED\n" + out)
 PY
